@@ -12,8 +12,9 @@
 (* quota * (L \div window + 2) (sound whatever the alignment of windows;   *)
 (* L is measured from the emission of the first to the reception of the    *)
 (* last, which over-estimates it); keys are independent (at least          *)
-(* min(n_k, quota) items of every key pass); completion and error of the   *)
-(* source are propagated.                                                  *)
+(* min(n_k, quota) items of every key pass, and an item is held back only  *)
+(* when quota earlier items of its own key passed recently); completion    *)
+(* and error of the source are propagated.                                 *)
 (***************************************************************************)
 EXTENDS Integers, Sequences, FiniteSets, TLC, Json
 
@@ -34,6 +35,7 @@ EmIdx(id) == CHOOSE j \in 1..Len(emitted) : emitted[j].id = id
 WasEmitted(id) == \E j \in 1..Len(emitted) : emitted[j].id = id
 NKey(k) == Cardinality({j \in 1..Len(emitted) : emitted[j].key = k})
 Min2(a, b) == IF a <= b THEN a ELSE b
+Slack == 3 * window + 50000
 
 Step ==
   \/ /\ Is("emit")
@@ -59,6 +61,15 @@ Step ==
      /\ srcTerm # "none" => outTerm = srcTerm                      \* completion and error are propagated
      \* keys are independent: whatever the other keys do, the first `quota` items of a key pass (when the stream ran to completion)
      /\ (srcTerm = "C" /\ ~shared) => \A k \in Keys : Len(passed[k]) >= Min2(NKey(k), quota)
+     \* ... and an item is held back only by items of ITS OWN key: `quota` earlier items of the key passed recently (within Slack before its
+     \* emission: three windows plus 50 ms, generous towards late ticks and descheduled goroutines - an item of a key whose quota is
+     \* eaten by ANOTHER key has no such items at all)
+     /\ (srcTerm = "C" /\ ~shared) =>
+           \A j \in 1..Len(emitted) :
+              LET k == emitted[j].key
+                  pk == passed[k]
+              IN (\A q \in 1..Len(pk) : pk[q].id # emitted[j].id) =>
+                    Cardinality({q \in 1..Len(pk) : pk[q].id < emitted[j].id /\ pk[q].ru >= emitted[j].u - Slack}) >= quota
      /\ PrintT(<<"ACCEPT", Ev.t>>)
      /\ UNCHANGED <<emitted, passed, srcTerm, outTerm>>
 
